@@ -18,12 +18,16 @@ def gen_fst(rng):
     n = rng.randint(1, 4)
     states = rng.sample(NAMES, n) if rng.random() < 0.4 else NAMES[:n]
     delta = []
+    silent = rng.random() < 0.5   # all epsilon moves silent (cycles allowed) / forward-only epsilon moves
     for _ in range(rng.randint(1, 6)):
         i, j = rng.randrange(n), rng.randrange(n)
         if rng.random() < 0.3:
-            # epsilon input: output only when going "forward" so that epsilon cycles stay silent
-            out = [rng.choice("xy")] if (i < j and rng.random() < 0.5) else []
-            delta.append([states[i], None, states[j], out])
+            # the property is about transducers whose epsilon cycles write nothing
+            if silent or i == j:
+                delta.append([states[i], None, states[j], []])
+            else:
+                i, j = min(i, j), max(i, j)
+                delta.append([states[i], None, states[j], [rng.choice("xy")] if rng.random() < 0.5 else []])
         else:
             out = [rng.choice("xy") for _ in range(rng.choice([0, 1, 1, 2]))]
             delta.append([states[i], rng.choice("ab"), states[j], out])
